@@ -76,6 +76,17 @@ func genC18(seed uint64, tier string) *Scenario {
 		default:
 			sc.TracerCfg = pick(r, nativeTracerCfgs[sc.Tracer])
 		}
+		if (sc.Tracer == "callTracer" || sc.Tracer == "flatCallTracer" || sc.Tracer == "muxTracer" || sc.Tracer == "prestateTracer") && r.Bool() {
+			// structured call trees (logs before calls, failing frames above succeeding ones, creates,
+			// self-destructs) exercise the nesting logic of the call-type tracers far more than random
+			// programs; nothing is bound and only standard opcodes are used, so upstream runs them too
+			t := genTreeScenario(seed, treeOpts{prop: "C18", bindProb: 0, multiTx: true})
+			t.Profile, t.Tracer, t.TracerCfg = "tracer", sc.Tracer, sc.TracerCfg
+			for i := range t.Execs[0].Txs {
+				t.Execs[0].Txs[i].SameEVM = false
+			}
+			return t
+		}
 		return sc
 	}
 }
